@@ -29,10 +29,10 @@ def jobs(tier, seed, report):
     report.bounds = {'magnitudes': 'unbounded rationals', 'powers': '-2..2 without 0 (symbolic)', 'exponent_of_pow': '-4..4 symbolic integer; non-integers and unit-carrying exponents must be refused',
                      'shapes': 'quick: 1x1 entries over a seeded sample of all unit pairs + the whole 14-unit basis squared, 2x1 sampled from the basis; thorough: 1500 seeded 1x1 pairs, all 2x1 and 400 seeded 2x2 shapes over the basis',
                      'profiles': 'dev and release MIR (release: 1x1 basis only in quick)'}
-    report.outside = ['more than 2 entries per operand', 'offset units (C09)', 'prefixes other than {0,3} on the first entry']
+    report.outside = ['more than 2 entries per operand', 'integer powers of a quantity in an offset unit (°C^n; conversions of such units are C09)', 'prefixes other than {0,3} on the first entry']
     report.assumptions = ['BigRational exact (SMT Real; products of symbolic magnitudes are nonlinear real arithmetic)', 'declared unit scales are checked against the standards in C05']
     report.models_used = ['num', 'coll', 'core']
-    report.required_witnesses = ['product-si-exact', 'quotient-si-exact', 'dims-add', 'divide-by-zero', 'pow-value', 'pow-zero-dimensionless', 'pow-zero-negative-error', 'reconstructed-derived-unit']
+    report.required_witnesses = ['product-si-exact', 'quotient-si-exact', 'dims-add', 'divide-by-zero', 'pow-value', 'pow-zero-dimensionless', 'pow-zero-negative-error', 'reconstructed-derived-unit', 'offset-product-refused-or-interval']
     rnd = random.Random(seed)
     I = harness.interp_for('dev')
     voc = ul.vocabulary(I)
@@ -56,6 +56,12 @@ def jobs(tier, seed, report):
         sh22 = [([a, b], [c, d]) for a, b in itertools.combinations(B, 2) for c, d in itertools.combinations(B, 2)]
         rnd.shuffle(sh22)
         for i in range(0, 400, 2): js.append({'name': f'2x2-{i}', 'kind': 'muldiv', 'profile': 'dev', 'shapes': sh22[i:i + 2]})
+    # zero-point scales in products and quotients, both operand orders, with themselves, with kelvin and with other units
+    OFF = [ul.resolve(I, n) for n in ul.OFFSET_UNITS]
+    others = [ul.resolve(I, n) for n in ('Meter', 'Kelvin', 'Second', 'energy::JOULE')] + (B if tier != 'quick' else [])
+    osh = [([o], [u]) for o in OFF for u in others] + [([u], [o]) for o in OFF for u in others] + [([a], [b]) for a in OFF for b in OFF]
+    osh += [([o, others[0]], [others[2]]) for o in OFF] + [([others[2]], [o, others[0]]) for o in OFF]
+    for i in range(0, len(osh), 4): js.append({'name': f'offset-{i}', 'kind': 'muldiv', 'profile': 'dev', 'shapes': osh[i:i + 4]})
     for prof in PROFILES:
         us = voc if (tier != 'quick' or prof == 'dev') else B
         for i in range(0, len(us), 8): js.append({'name': f'{prof}-pow-{i}', 'kind': 'pow', 'profile': prof, 'units': us[i:i + 8]})
@@ -81,7 +87,10 @@ def qtext(m, x, ent):
     return f'{rt.frac_str(rt.mval(m, x))} {s}' if s else rt.frac_str(rt.mval(m, x))
 
 def muldiv(I, res, au, bu, op, prof, deadline, symprefix=False):
-    if any(U.is_offset(u) for u in au + bu): return
+    # a scale with a zero point (°C, °F) inside a product: C09's clause applies -- refused, or the degree is an interval
+    # (its size from the standard: 1 K, 5/9 K) and the zero point is never added
+    offs = any(U.is_offset(u) for u in au + bu)
+    sc = lambda u: U.scale_of(u) if U.is_offset(u) else ul.declared_scale(I, u)[1]
     FN = rt.find_fn(I, op, contains='eval::', nargs=3)
     def entry(I):
         x = z3.Real('x'); y = z3.Real('y')
@@ -111,11 +120,13 @@ def muldiv(I, res, au, bu, op, prof, deadline, symprefix=False):
                 if res.obligation(I, y != 0, 'DivideByZero only for a zero divisor', lambda m: res['candidates'].append({'role': 'spurious-divide-by-zero', 'case': case(m), 'detail': ek})) == 'unsat': res.witness('divide-by-zero')
                 return
             res['obligations'] += 1
+            if offs:
+                res['discharged'] += 1; res.witness('offset-product-refused-or-interval'); return
             rr, m = I.model_for(None)
             res['candidates'].append({'role': f'{op}-refused', 'case': case(m), 'detail': ek}); return
         num = r.items[0]
         v = mnum.rz(mnum.rat_arg(I, num.items[0])); R = rt.read_compound(I, num.items[1])
-        fa = ul.F_of(I, ae); fb = ul.F_of(I, be); fr = ul.F_of(I, R)
+        fa = ul.F_of(I, ae, sc); fb = ul.F_of(I, be, sc); fr = ul.F_of(I, R, sc)
         # zero divisor must not produce a value
         if op == 'div':
             res.obligation(I, y == 0, 'a zero divisor never yields a number', lambda m: res['candidates'].append({'role': 'divide-by-zero-yields-number', 'case': case(m), 'detail': ''}))
@@ -134,6 +145,7 @@ def muldiv(I, res, au, bu, op, prof, deadline, symprefix=False):
             res['candidates'].append({'role': 'si-value', 'case': case(m), 'detail': f'{prof}: result {rt.mval(m, v)} {[(u, rt.mval(m, p), rt.mval(m, f)) for u, p, f in R]}'})
         if res.obligation(I, lhs != rhs, 'SI value of the result', on_sat) == 'unsat':
             res.witness('product-si-exact' if op == 'mul' else 'quotient-si-exact')
+            if offs: res.witness('offset-product-refused-or-interval')
             if any(u not in rt.BASE_UNITS for u, _, _ in R): res.witness('reconstructed-derived-unit')
         if len(res['samples']) < 3 and len(R) >= 1:
             res['samples'].append({'a': str([(u, str(p)) for u, p, _ in ae]), 'b': str([(u, str(p)) for u, p, _ in be]), 'op': op, 'result_unit': str([(u, str(p)) for u, p, _ in R]),
@@ -242,7 +254,9 @@ def confirm(c, outs):
         if div and y == 0:
             if 'ok' in r: return True, f'{prof}: division by zero gave {r["ok"]["value"]}'
             continue
-        if 'err' in r: return True, f'{prof}: refused: {r["err"]}'
+        if 'err' in r:
+            if any(U.is_offset(u) for u, _, _ in a + b): continue      # a product with a zero-point scale may be refused
+            return True, f'{prof}: refused: {r["err"]}'
         got = rt.parse_frac(r['ok']['value']); R = unit_entries(r['ok']['unit'])
         want = x * ul.decl_si_factor(a) * (y * ul.decl_si_factor(b)) if not div else x * ul.decl_si_factor(a) / (y * ul.decl_si_factor(b))
         if any(p == 0 for _, p, _ in R): return True, f'{prof}: zero-power entry in {R}'
